@@ -25,7 +25,8 @@ RULE = ("case = (parameter type IR, earlier parameter values, field bits, bit of
         "Splines: 1-6 knots, orders 0/1, both extrapolate settings, queried at EVERY knot, both end points, between "
         "knots, just outside and far outside; polynomials: 0-5 terms, exponents -2..4, coefficient magnitudes "
         "1e-12..1e12; context lists of 0-3 calibrators with overlapping criteria (incl. self-referencing) with and "
-        "without default; enumerated/boolean types over calibrated encodings; time types with scale/offset. "
+        "without default; enumerated/boolean types over calibrated encodings; time types with scale/offset; seven small "
+        "enumeration shapes x widths {1,2,3,4,8} x {unsigned, signed, twosComplement} x EVERY raw value of the encoding. "
         "distinct_nontrivial = distinct (type kind, calibrator kind, source, query position class, extrapolate, "
         "encoding kind, route) signatures; an uncalibrated integer is the trivial case and is excluded.")
 ASSUMPTIONS = ["non-finite raw floats through a calibrator are not compared (class only)",
